@@ -36,12 +36,21 @@ def _mask_case(job):
     case, W, H = job
     out = []
     cells = [tuple(c) for c in case["mask"]]
-    for ox, oy, fw, fh in ((2, 3, W + 5, H + 6), (0, 0, W + 3, H + 2),
-                           (1, 0, W + 2, H + 1)):
+    xs = [c[0] for c in cells]
+    ys = [c[1] for c in cells]
+    bw, bh = max(xs) - min(xs) + 1, max(ys) - min(ys) + 1
+    fw, fh = W + 6, H + 5
+    # placements of the mask's bounding box in the frame: interior, and
+    # touching exactly one border / a corner
+    places = {"interior": (2, 3), "left border": (0, 2),
+              "right border": (fw - bw, 2), "top border": (3, 0),
+              "bottom border": (3, fh - bh), "top-left corner": (0, 0),
+              "bottom-right corner": (fw - bw, fh - bh)}
+    for where, (px, py) in places.items():
+        ox, oy = px - (min(xs) - 1), py - (min(ys) - 1)
         m = np.zeros((fh, fw), dtype=bool)
         for x, y in cells:
             m[y - 1 + oy, x - 1 + ox] = True
-        where = "touching the border" if (ox == 0 or oy == 0) else "interior"
         try:
             c = get_contour(m)
         except BaseException as exc:
